@@ -68,6 +68,7 @@ func (r *Runner) fillExpandConfig(ctx context.Context) {
 			r2.stdout = w
 			r2.stmts(ctx, cs.Stmts)
 			r2.exit.exiting = false // subshells don't exit the parent shell
+			r2.exit.returning = false
 			r.lastExpandExit = r2.exit
 			if r2.exit.fatalExit {
 				return r2.exit.err // surface fatal errors immediately
@@ -152,6 +153,7 @@ func (r *Runner) fillExpandConfig(ctx context.Context) {
 				}
 				r2.stmts(ctx, ps.Stmts)
 				r2.exit.exiting = false // subshells don't exit the parent shell
+				r2.exit.returning = false
 			}()
 			return path, nil
 		},
@@ -324,6 +326,7 @@ func (r *Runner) stmt(ctx context.Context, st *syntax.Stmt) {
 		go func() {
 			r2.Run(ctx, &st2)
 			r2.exit.exiting = false // subshells don't exit the parent shell
+			r2.exit.returning = false
 			*bg.exit = r2.exit
 			close(bg.done)
 		}()
@@ -400,6 +403,7 @@ func (r *Runner) cmd(ctx context.Context, cm syntax.Command) {
 		r2 := r.subshell(false)
 		r2.stmts(ctx, cm.Stmts)
 		r2.exit.exiting = false // subshells don't exit the parent shell
+		r2.exit.returning = false
 		r.exit = r2.exit
 	case *syntax.CallExpr:
 		// Build new slices, to not modify the caller's AST
@@ -521,6 +525,7 @@ func (r *Runner) cmd(ctx context.Context, cm syntax.Command) {
 			wg.Go(func() {
 				r2.stmt(ctx, cm.X)
 				r2.exit.exiting = false // subshells don't exit the parent shell
+				r2.exit.returning = false
 				pw.Close()
 			})
 			r.stmt(ctx, cm.Y)
